@@ -103,9 +103,9 @@ def mutants(argv):
         try:
             subprocess.run(["git", "-C", str(REPO), "worktree", "prune"], capture_output=True)
             shutil.copytree(REPO / "src", copy / "src", ignore=shutil.ignore_patterns("__pycache__", "*.pyc"))
-            ap = subprocess.run(["git", "apply", "--unsafe-paths", f"--directory={copy}", str(patch)], capture_output=True, text=True, cwd="/")
+            ap = subprocess.run(["git", "apply", "-p1", "--whitespace=nowarn", str(patch)], capture_output=True, text=True, cwd=str(copy))
             if ap.returncode != 0:
-                ap = subprocess.run(["patch", "-p1", "-d", str(copy), "-i", str(patch)], capture_output=True, text=True)
+                ap = subprocess.run(["patch", "-p1", "--binary", "-d", str(copy), "-i", str(patch)], capture_output=True, text=True)
             if ap.returncode != 0:
                 print(f"{name}: PATCH DOES NOT APPLY: {ap.stderr[-300:]}{ap.stdout[-300:]}")
                 results[name] = "noapply"
